@@ -28,5 +28,6 @@ Emit ==
     ELSE LET n == c.n IN
          PrintT(<<"REPLAY", ToJson([kind |-> "special", n |-> n, k |-> c.k, sp |-> c.sp, x |-> X(n), y |-> Y(n),
                   dot |-> DotClass(c.sp, Y(n)[c.k]), axpy |-> [a2 \in A2s |-> AxpyClass(c.sp, a2)],
-                  mult |-> MulClass(c.sp, Y(n)[c.k]), sq |-> SqClass(c.sp)])>>)
+                  mult |-> MulClass(c.sp, Y(n)[c.k]), sq |-> SqClass(c.sp),
+                  tests |-> [cl \in TestClasses |-> <<AllFinite(cl), AllFiniteNonzero(cl)>>]])>>)
 =============================================================================
